@@ -8,10 +8,11 @@ import Deepali.Drv.Affine
 import Deepali.Drv.BSpline
 import Deepali.Drv.FD
 import Deepali.Drv.Losses
+import Deepali.Drv.Dispatch
 namespace Deepali.Drv
 open Deepali.Proto
 
 def allHandlers : List (String × Reader String) :=
-  gridHandlers ++ sampleHandlers ++ flowHandlers ++ affineHandlers ++ bsplineHandlers ++ fdHandlers ++ lossHandlers
+  gridHandlers ++ sampleHandlers ++ flowHandlers ++ affineHandlers ++ bsplineHandlers ++ fdHandlers ++ lossHandlers ++ dispatchHandlers
 
 end Deepali.Drv
